@@ -544,6 +544,10 @@ theorem lookup_reload (s : Store) (hi : IndexInv s) (id : String) :
     · have hne : ¬ v.sil.id = id := by rw [hkv]; exact h
       simp [h, hne]
 
+/-- Snapshot + restart loses nothing: the reloaded store holds exactly the same versions. -/
+theorem reload_lossless (s : Store) (hi : IndexInv s) (id : String) :
+    lookup (reload s).st id = lookup s.st id := lookup_reload s hi id
+
 /-- One step: a silence that `getState` calls expired is still stored unchanged, or gone
     (collected), after any API operation at the same or a later instant — provided the
     uuid drawn is not its id. -/
